@@ -373,6 +373,8 @@ def do_check(prop, tier, seed, workdir, t0):
         inconclusive.append(f"{agg['n_harness_errors']} harness errors, first: {agg['harness_errors'][0]['trace'][-1200:]}")
     if agg["n_eval"] == 0:
         inconclusive.append("no case was evaluated")
+    if hasattr(mod, "inconclusive"):
+        inconclusive += list(mod.inconclusive(agg) or [])
     need = getattr(mod, "required_counters", lambda tier: [])(tier)
     for name in need:
         if agg["counters"].get(name, 0) == 0 and agg["features"].get(name, 0) == 0:
